@@ -100,6 +100,18 @@ func applyChunk(f raft.FSM, cmds []metacmd.Cmd, first uint64, batch bool) (res [
 	return
 }
 
+// resClass names the kind of result difference: one replica succeeded and the other did
+// not, or both failed with different errors.
+func resClass(a, b []string, k int) string {
+	if k < 0 || k >= len(a) || k >= len(b) {
+		return "count"
+	}
+	if a[k] == "" || b[k] == "" {
+		return "nil-vs-error"
+	}
+	return "error-vs-error"
+}
+
 func eqStrings(a, b []string) (int, bool) {
 	if len(a) != len(b) {
 		return -1, false
@@ -194,10 +206,10 @@ func exec(p *Plan, st stats) *outcome {
 			return fail(i, "panic-divergence/"+it.Cmd.Name, fmt.Sprintf("A applied the chunk, B panic=%v C panic=%v", pb, pc))
 		}
 		if k, ok := eqStrings(chunkRes, rc); !ok {
-			return fail(i, "result/plain/"+chunk[max(k, 0)].Name, fmt.Sprintf("results differ between two plain replicas (batch=%v): A=%q C=%q", it.BatchC, chunkRes, rc))
+			return fail(i, "result/"+chunk[max(k, 0)].Name+"/"+resClass(chunkRes, rc, k)+"/plain", fmt.Sprintf("results differ between two plain replicas (batch=%v): A=%q C=%q", it.BatchC, chunkRes, rc))
 		}
 		if k, ok := eqStrings(chunkRes, rb); !ok {
-			return fail(i, "result/after-restore/"+chunk[max(k, 0)].Name, fmt.Sprintf("results differ between the full replica and the restored one (batch=%v): A=%q B=%q", it.BatchB, chunkRes, rb))
+			return fail(i, "result/"+chunk[max(k, 0)].Name+"/"+resClass(chunkRes, rb, k)+"/after-restore", fmt.Sprintf("results differ between the full replica and the restored one (batch=%v): A=%q B=%q", it.BatchB, chunkRes, rb))
 		}
 		da := dumpFSM(A)
 		if d, bad := metacmd.FirstDiff(da, dumpFSM(C)); bad {
@@ -325,7 +337,7 @@ func rerun(p *Plan, ref *outcome, batch bool) (string, string) {
 			return "panic-divergence/rerun", fmt.Sprintf("re-execution panicked at chunk %d: %v", cn, pan)
 		}
 		if k, ok := eqStrings(ref.results[cn], r); !ok {
-			return "result/rerun/" + cmds[max(k, 0)].Name, fmt.Sprintf("re-execution of the same log returned different results at chunk %d: first=%q again=%q", cn, ref.results[cn], r)
+			return "result/" + cmds[max(k, 0)].Name + "/" + resClass(ref.results[cn], r, k) + "/rerun", fmt.Sprintf("re-execution of the same log returned different results at chunk %d: first=%q again=%q", cn, ref.results[cn], r)
 		}
 		if d, bad := metacmd.FirstDiff(ref.dumps[cn], dumpFSM(D)); bad {
 			return "diverge/" + d.Shape + "/rerun", fmt.Sprintf("re-execution of the same log gives a different catalogue after chunk %d: %s first=%s again=%s", cn, d.Path, d.A, d.B)
